@@ -136,6 +136,14 @@ func heldIn(ctl interface{}) int {
 	}
 	return 0
 }
+func releasedIn(ctl interface{}) int {
+	hooks.mu.Lock()
+	defer hooks.mu.Unlock()
+	if c := hooks.counts[ctl]; c != nil {
+		return c.relIn
+	}
+	return 0
+}
 func heldOut(ctl interface{}) int {
 	hooks.mu.Lock()
 	defer hooks.mu.Unlock()
@@ -257,6 +265,11 @@ func offerScenario(t int, seed int64, slow bool) ([]map[string]any, error) {
 	}
 	var out []map[string]any
 	inflight := map[int]bool{}
+	// sureUntil[k]: until then key k is certainly marked as being received.  The receive goroutine of the offer that was
+	// accepted for k (request sent at tSend) keeps the marks at least until its uTP accept times out, 15 s after it
+	// started, and it started after tSend; 10 s leaves a margin.  After that the harness does not know (the marks may be
+	// gone), so the fact handed to the judge is "in flight for sure", never a guess.
+	sureUntil := map[int]time.Time{}
 	type held struct {
 		keys []int
 		cid  uint16
@@ -317,6 +330,7 @@ func offerScenario(t int, seed int64, slow bool) ([]map[string]any, error) {
 			}
 		}
 		free := limit - heldIn(ctl)
+		relBefore := releasedIn(ctl)
 		qfull := len(B.Queue) >= qcap
 		ev := map[string]any{"ev": "of.offer", "o": o, "version": version, "keys": kfacts, "limit": limit, "free": free, "queuefull": qfull,
 			"decoded": false, "verdicts": []int{}, "cid": 0, "transfer": "none", "delivered": false, "dkeys": []int{}, "dequal": false, "detail": "", "race": race}
@@ -334,7 +348,15 @@ func offerScenario(t int, seed int64, slow bool) ([]map[string]any, error) {
 		if err != nil {
 			return nil, err
 		}
+		tSend := time.Now()
 		resp, err := A.D5.TalkRequest(B.P.Self(), string(portalwire.History), append([]byte{portalwire.OFFER}, ob...))
+		tReply := time.Now()
+		for i, ki := range perm {
+			kfacts[i]["inflight"] = inflight[ki] && tReply.Before(sureUntil[ki])
+		}
+		// a receive goroutine that ended between the snapshot and the handler gave its slot back: upper bound of the free slots
+		free += releasedIn(ctl) - relBefore
+		ev["free"] = free
 		if err != nil {
 			ev["ev"], ev["detail"] = "of.noobs", err.Error()
 			out = append(out, ev)
@@ -395,6 +417,7 @@ func offerScenario(t int, seed int64, slow bool) ([]map[string]any, error) {
 			ev["transfer"] = kind
 			for _, ki := range accIdx {
 				inflight[ki] = true
+				sureUntil[ki] = tSend.Add(10 * time.Second)
 			}
 			switch kind {
 			case "hold":
